@@ -1,8 +1,10 @@
 package main
 
 import (
+	"errors"
 	"fmt"
 	"io"
+	"io/fs"
 	"runtime"
 	"strings"
 	"sync"
@@ -350,7 +352,133 @@ func c20Describe(ops []porcupine.Operation) []string {
 	return out
 }
 
+// ---- the built-in FSLoader over a file system whose reads can fail half way -----------------------------
+
+type c20FlakyFS struct {
+	mu      sync.Mutex
+	content map[string]string
+	failing map[string]int // read error after this many bytes (0 = healthy)
+	opens   map[string]int
+}
+
+type c20FlakyFile struct {
+	name   string
+	data   []byte
+	off    int
+	failAt int
+}
+
+func (f *c20FlakyFile) Stat() (fs.FileInfo, error) { return nil, errors.New("stat not supported") }
+func (f *c20FlakyFile) Close() error               { return nil }
+func (f *c20FlakyFile) Read(p []byte) (int, error) {
+	if f.failAt > 0 && f.off >= f.failAt {
+		return 0, errors.New("flaky fs: read error")
+	}
+	if f.off >= len(f.data) {
+		return 0, io.EOF
+	}
+	end := len(f.data)
+	if f.failAt > 0 && end > f.failAt {
+		end = f.failAt
+	}
+	n := copy(p, f.data[f.off:end])
+	f.off += n
+	return n, nil
+}
+
+func (s *c20FlakyFS) Open(name string) (fs.File, error) {
+	s.mu.Lock()
+	defer s.mu.Unlock()
+	s.opens[name]++
+	txt, ok := s.content[name]
+	if !ok {
+		return nil, &fs.PathError{Op: "open", Path: name, Err: fs.ErrNotExist}
+	}
+	return &c20FlakyFile{name: name, data: []byte(txt), failAt: s.failing[name]}, nil
+}
+
+func c20FSLoaderCase(c *C) {
+	r := c.R
+	ffs := &c20FlakyFS{content: map[string]string{}, failing: map[string]int{}, opens: map[string]int{}}
+	set := pongo2.NewSet("fsloader", pongo2.NewFSLoader(ffs))
+	names := []string{"a.tpl", "mails/b.tpl"}
+	version := map[string]int{}
+	cached := map[string]*pongo2.Template{}
+	var trace []string
+	for _, n := range names {
+		version[n] = 1
+		ffs.content[n] = fmt.Sprintf("first part of %s version 1 {{ 1 }}; second part of %s version 1", n, n)
+	}
+	for step := 0; step < 6+r.Intn(10); step++ {
+		n := names[r.Intn(len(names))]
+		switch r.Intn(6) {
+		case 0:
+			version[n]++
+			ffs.mu.Lock()
+			ffs.content[n] = fmt.Sprintf("first part of %s version %d {{ 1 }}; second part of %s version %d", n, version[n], n, version[n])
+			ffs.mu.Unlock()
+			trace = append(trace, fmt.Sprintf("content(%s) = version %d", n, version[n]))
+		case 1:
+			ffs.mu.Lock()
+			if ffs.failing[n] == 0 {
+				ffs.failing[n] = 10 + r.Intn(25) // fails inside the (parseable) first part
+			} else {
+				ffs.failing[n] = 0
+			}
+			f := ffs.failing[n]
+			ffs.mu.Unlock()
+			trace = append(trace, fmt.Sprintf("reads of %s fail after %d bytes (0 = healthy)", n, f))
+		case 2:
+			set.CleanCache(n)
+			delete(cached, n)
+			trace = append(trace, "CleanCache("+n+")")
+		default:
+			tpl, err := set.FromCache(n)
+			c.Eval(1)
+			ffs.mu.Lock()
+			failing := ffs.failing[n] > 0
+			ffs.mu.Unlock()
+			trace = append(trace, fmt.Sprintf("FromCache(%s) -> err=%v", n, err != nil))
+			if prev, ok := cached[n]; ok {
+				if err != nil || tpl != prev {
+					c.Fail("cache-incoherent", D{"history": trace, "why": "a cached template must be returned again"})
+					return
+				}
+				continue
+			}
+			if failing {
+				if err == nil {
+					out, _ := tpl.Execute(nil)
+					c.Fail("failed-load-cached", D{"history": trace, "why": "the loader's read failed half way, yet FromCache returned a template", "rendered": out})
+					return
+				}
+				continue
+			}
+			if err != nil {
+				c.Fail("cache-incoherent", D{"history": trace, "why": "healthy file system but FromCache failed: " + err.Error()})
+				return
+			}
+			out, _ := tpl.Execute(nil)
+			want := fmt.Sprintf("first part of %s version %d 1; second part of %s version %d", n, version[n], n, version[n])
+			if out != want {
+				c.Fail("cache-incoherent", D{"history": trace, "why": "loaded template does not render the current, complete content", "rendered": out, "expected": want})
+				return
+			}
+			cached[n] = tpl
+		}
+	}
+	// a directory name is not a template
+	ffs.content["mails"] = ""
+	ffs.failing["mails"] = 0
+	c.Cover("fsloader_flaky_reads")
+	c.Nontrivial("fsloader:" + strings.Join(trace, ";"))
+}
+
 func c20Run(c *C) {
+	if c.Idx%10 == 9 {
+		c20FSLoaderCase(c)
+		return
+	}
 	r := c.R
 	nsets := 1 + r.Intn(2)
 	names := []string{"/a", "/b", "/c"}[:1+r.Intn(3)]
@@ -509,7 +637,7 @@ func init() {
 		CaseTimeout: 120,
 		Rule: "histories over {FromCache(n), CleanCache(n), CleanCache(), toggle Debug, change content (incl. content that does not compile), make the loader fail} on 1-3 names and 1-2 sets recorded at the client boundary with call/return stamps of one atomic clock; every returned template is identified by pointer identity and by the content version it renders (unique per fetch). " +
 			"One quarter of the histories are sequential (8-35 operations, all operation kinds interleaved freely), three quarters concurrent (2/4/8 clients x 2-5 operations in 1-3 phases separated by barriers at which Debug/content/failure change; the loader yields or sleeps up to 500us inside Get), run in the -race worker under GOMAXPROCS 2/4/16. " +
-			"Oracle: porcupine CheckOperationsVerbose against the sequential map model, partitioned per (set, name); successful loader fetches == distinct templates returned (+ compile errors of broken content); every template renders its own set's globals and TrimBlocks option; zero race reports with engine frames. distinct_nontrivial = distinct histories.",
+			"Oracle: porcupine CheckOperationsVerbose against the sequential map model, partitioned per (set, name); successful loader fetches == distinct templates returned (+ compile errors of broken content); every template renders its own set's globals and TrimBlocks option; zero race reports with engine frames. One case in ten drives the built-in FSLoader over a file system whose reads fail half way (after a parseable prefix): a failed load must be an error and must not be cached, a healthy load must render the complete current content. distinct_nontrivial = distinct histories.",
 		MinNontriv:  500,
 		Assumptions: []string{"Debug, content and loader failures change only at barriers in concurrent phases (the documentation makes synchronising Debug the caller's job)", "porcupine v1.3.0 is a correct linearizability checker"},
 	})
